@@ -271,6 +271,10 @@ impl img::DiskImage for Dot2mg {
         self.header.comment_len = u32::to_le_bytes(rem_len);
         self.header.creator_offset = u32::to_le_bytes(match cre_len { 0 => 0, _ => 64+buf_len+rem_len});
         self.header.creator_len = u32::to_le_bytes(cre_len);
+        if u32::from_le_bytes(self.header.img_fmt)==1 {
+            // for ProDOS ordered data the block count is a function of the data length, like the offsets above
+            self.header.blocks = u32::to_le_bytes(buf_len/512);
+        }
         ans.append(&mut self.header.to_bytes());
         ans.append(&mut self.raw_img.to_bytes());
         if !self.comment.is_ascii() {
